@@ -164,8 +164,8 @@ theorem body_mainT (ret : Ty) (hret : tyGood ret = true) :
     | expr e =>
       obtain ⟨rfl, rfl⟩ := expr_stepT h1
       rw [runDefs_nil]
-      simp only [wellBody, Bool.and_eq_true] at hwb
-      obtain ⟨r, hr1, hr2⟩ := body_mainT ret hret ss ρ _ σ hinv hok.2 hwb.2 hnone s1 s2 rest h2
+      simp only [wellBody] at hwb
+      obtain ⟨r, hr1, hr2⟩ := body_mainT ret hret ss ρ _ σ hinv hok.2 hwb hnone s1 s2 rest h2
       exact ⟨r, by simp only [semBodyT, hr1], hr2⟩
     | unsupported w => simp [stmtOKT] at hok
 
